@@ -46,7 +46,7 @@ func (f *Oneminus) Call(s *slip.Scope, args slip.List, depth int) (result slip.O
 	case slip.Fixnum:
 		result = subFixnums(ta, 1)
 	case slip.Octet:
-		result = ta - 1
+		result = subFixnums(slip.Fixnum(ta), 1)
 	case slip.SingleFloat:
 		result = ta - 1.0
 	case slip.DoubleFloat:
